@@ -1,60 +1,17 @@
 """C01 check: families of core-language programs, run on the real interpreter, each
 recorded execution validated by TLC against Core.tla."""
-import json
-from common import seed, text_of, ToolError
-from pool import Pool
-from corecheck import CoreRun, describe
-from report import Reporter
+from corerun import run_property
 import c01
-import features
-
-PID = "C01"
 
 
 def run(tier, replay):
-    rep = Reporter(PID, tier, "model_checking")
-    pool = Pool()
-    if replay:
-        with open(replay) as f:
-            d = json.load(f)
-        cases = [{"id": 1, "fam": d.get("family"), "prog": d["prog"], "stdin": d.get("stdin", "")}]
-    else:
-        cases = c01.cases(tier, seed())
-    cr = CoreRun(PID, pool)
-    cr.execute(cases)
-    cr.validate(cases)
-    n = {"agree": 0, "mismatch": 0, "skip": 0}
-    fams = {}
-    nontrivial = set()
-    for c in cases:
-        n[c["verdict"]] += 1
-        fam = c["fam"].split(":")[0]
-        fams[fam] = fams.get(fam, 0) + 1
-        if c["verdict"] == "agree" and (len(c["obs"]["out"]) > 0 or c["obs"]["status"] == "err"):
-            nontrivial.add(c["text"])
-        if c["verdict"] == "mismatch":
-            rep.violation(describe(c), features.of_case(c), name=fam)
-    samples = []
-    for c in cases[:: max(1, len(cases) // 5)][:5]:
-        samples.append({"family": c["fam"], "text": c["text"], "observed_out": text_of(c["obs"]["out"]),
-                        "observed_status": c["obs"]["status"], "verdict": c["verdict"]})
-    coverage = {
-        "states": cr.states, "transitions": cr.transitions,
-        "traces_validated_against_impl": n["agree"] + n["mismatch"],
-        "samples": samples,
-        "evaluations": len(cases), "distinct_nontrivial": len(nontrivial),
-        "rule": "families nest/expr/for/select/data/err enumerated completely within their stated bounds plus "
-                "seeded random programs; a case is non-trivial when the run printed something or ended in a "
-                "run-time error and TLC accepted it; distinct by rendered text",
-        "verdicts": n, "families": fams,
-        "skipped_outside_exact_domain_or_fuel": n["skip"],
-        "spec_action_coverage": {k: v[1] for k, v in cr.coverage.items()},
-        "checker_cmd": cr.cmds[0] if cr.cmds else "",
-        "exhaustive": False,
-    }
-    assumptions = [
-        "renderer AST->text is trusted (a wrong rendering shows up as a mismatch, not as a miss)",
-        "numeric domain restricted to exactly representable whole numbers; cases leaving it are skipped by the spec",
-        "PRINT formatting of a number: blank or minus, digits, blank",
-    ]
-    return rep.finish(coverage, assumptions)
+    return run_property(
+        "C01", c01.cases, tier, replay,
+        rule="families nest/expr/for/select/data/err enumerated completely within their stated bounds plus "
+             "seeded random programs; a case is non-trivial when the run printed something or ended in a "
+             "run-time error and TLC accepted it; distinct by rendered text",
+        assumptions=[
+            "renderer AST->text is trusted (a wrong rendering shows up as a mismatch, not as a miss)",
+            "numeric domain restricted to exactly representable whole numbers; cases leaving it are skipped by the spec",
+            "PRINT formatting of a number: blank or minus, digits, blank",
+        ])
